@@ -13,7 +13,6 @@ sc = tempfile.mkdtemp(prefix='fpsetup.', dir='/var/tmp')
 try:
     print('replay crate:', 'built' if witness.build_replayer('${VERIF_REPO:-/repo}', sc) else 'NOT built (will be retried by the checks)')
     print('replay crate (release):', 'built' if witness.build_replayer('${VERIF_REPO:-/repo}', sc, release=True) else 'NOT built (will be retried by the checks)')
-    print('replay crate (release):', 'built' if witness.build_replayer('${VERIF_REPO:-/repo}', sc, release=True) else 'NOT built (will be retried by the checks)')
 finally:
     shutil.rmtree(sc, ignore_errors=True)
 PY
